@@ -134,9 +134,10 @@ class Excel:
                 # A:A range case
                 return [[i] for i in self._get_vertical_range(first, second)]
             # A:C range case
-            result = list((self._get_vertical_range(Cell(first.title, column_index, None), Cell(
+            columns = list((self._get_vertical_range(Cell(first.title, column_index, None), Cell(
                 first.title, column_index, None)) for column_index in range(first.column, second.column+1)))
-            return result
+            # a matrix is a list of rows everywhere else (A1:C9), so the columns are turned into rows
+            return [list(row) for row in zip(*columns)]
         elif isinstance(first.row, int) and first.row >= 0 and second.row >= 0:
             return self._get_matrix(first, second)
         else:
